@@ -311,7 +311,6 @@ theorem fieldsSize_eq_app_len (fs : Fields) (vs : List Val) (hwf : fieldsWf fs) 
     fieldsSize fs vs = (fieldsApp fs vs).length :=
   sizeLaw_fields fs vs hwf hty
 
-#print axioms size_eq_app_len
 
 /-! ### law 2: framing -/
 
@@ -585,7 +584,291 @@ theorem struct_body (n : String) (fs : Fields) (vs : List Val) :
     (Ty.struct n fs).app (.struct vs) [] = fieldsApp fs vs := by
   simp [Ty.app, frame]
 
-#print axioms app_frame_len
-#print axioms app_frame_other
-#print axioms pslice_frames
-#print axioms pmap_frames
+
+/-- a value of a non-pointer codec is always present … -/
+theorem present_of_not_ptr (t : Ty) (v : Val) (h : t.isPtr = false) (hty : t.hasTy v) :
+    v.present = true := by
+  cases t <;> cases v <;> simp_all [Ty.hasTy, Val.present, Ty.isPtr]
+
+/-- … and under a single pointer "present" is just "not nil". Under a pointer to
+a pointer it is not: `.ptr (some (.ptr none))` appends nothing. -/
+theorem present_of_ne_nil (t : Ty) (v : Val) (h : t.isPtr = false) (hty : (Ty.ptr t).hasTy v)
+    (hv : v ≠ .ptr none) : v.present = true := by
+  cases v with
+  | ptr o =>
+    cases o with
+    | none => exact absurd rfl hv
+    | some x =>
+      simp only [Ty.hasTy] at hty
+      simp only [Val.present]
+      exact present_of_not_ptr t x h hty
+  | _ => simp [Ty.hasTy] at hty
+
+/-! ### law 3: the scalar readers consume exactly what was appended -/
+
+theorem leVal_leBytes : ∀ (n v : Nat), leVal (leBytes n v) = v % 256 ^ n
+  | 0, v => by simp [leBytes, leVal]; omega
+  | n+1, v => by
+    have hb : ((v % 256).toUInt8).toNat = v % 256 := toUInt8_toNat_lt _ (Nat.mod_lt _ (by omega))
+    simp only [leBytes, leVal, hb, leVal_leBytes n (v / 256)]
+    rw [Nat.pow_succ, Nat.mul_comm (256 ^ n) 256, Nat.mod_mul]
+
+theorem take_leBytes (n v : Nat) (rest : Bytes) : (leBytes n v ++ rest).take n = leBytes n v := by
+  have := leBytes_length n v
+  exact List.take_left' this
+
+def Ty.isScalar : Ty → Bool
+  | .bool | .int _ | .uint _ | .flat _ | .f32 | .f64 => true
+  | _ => false
+
+theorem wrapS_id (w : Nat) (i : Int) (hw : validWidth w) (h : intRange w i) : wrapS w i = i := by
+  unfold intRange at h
+  unfold wrapS
+  rcases hw with rfl | rfl | rfl | rfl <;> simp only [Nat.reduceSub, Int.reducePow] at h ⊢ <;> split <;> omega
+
+theorem wrapU_natCast (w n : Nat) (hw : validWidth w) (h : n < 2 ^ w) : wrapU w (n : Int) = n := by
+  unfold wrapU
+  rcases hw with rfl | rfl | rfl | rfl <;> simp only [Nat.reducePow, Int.reducePow] at h ⊢ <;> omega
+
+theorem wrapU_lt (w : Nat) (i : Int) (hw : validWidth w) : wrapU w i < 2 ^ 64 := by
+  unfold wrapU
+  rcases hw with rfl | rfl | rfl | rfl <;> simp only [Nat.reducePow, Int.reducePow] <;> omega
+
+theorem wrapS_wrapU (w : Nat) (i : Int) (hw : validWidth w) (h : intRange w i) :
+    wrapS w (wrapU w i : Int) = i := by
+  unfold intRange at h
+  unfold wrapS wrapU
+  rcases hw with rfl | rfl | rfl | rfl <;> simp only [Nat.reduceSub, Int.reducePow] at h ⊢ <;> split <;> omega
+
+theorem zigZag_lt_of_range (w : Nat) (i : Int) (hw : validWidth w) (h : intRange w i) :
+    zigZag i < 2 ^ 64 := by
+  unfold intRange at h
+  apply zigZag_lt
+  all_goals rcases hw with rfl | rfl | rfl | rfl <;> simp only [Nat.reduceSub, Int.reducePow] at h ⊢ <;> omega
+
+/-- reading back a varint that was appended: value and exact length. -/
+theorem readVarUint_app (x : Nat) (hx : x < 2 ^ 64) (rest : Bytes) :
+    ¬ ((readVarUint (appendVarUint x ++ rest)).2 < 0) ∧
+    (readVarUint (appendVarUint x ++ rest)).1 = x ∧
+    (readVarUint (appendVarUint x ++ rest)).2.toNat = (appendVarUint x).length := by
+  rw [read_append x hx rest]
+  simp only [Int.ofNat_eq_natCast, Int.toNat_natCast, and_self, and_true]
+  omega
+
+/-- C05 law 3 (with the value): each self-delimiting scalar codec, reading what
+it appended (no tag) followed by arbitrary bytes, returns the value and consumes
+exactly the appended length — whatever wire type and prior value it is given. -/
+theorem scalar_read_exact (t : Ty) (v : Val) (wt : WT) (rest : Bytes) (p : Val)
+    (hs : t.isScalar = true) (hwf : t.wf) (hty : t.hasTy v) :
+    t.read wt (t.app v [] ++ rest) p = .ok (v, (t.app v []).length) := by
+  cases t with
+  | bool =>
+    cases v with
+    | bool b =>
+      have ⟨h1, h2, h3⟩ := readVarUint_app (if b then 1 else 0) (by cases b <;> simp) rest
+      simp only [Ty.app, Ty.read, List.nil_append, h1, h2, h3, ↓reduceIte]
+      cases b <;> simp
+    | _ => simp [Ty.hasTy] at hty
+  | int w =>
+    cases v with
+    | int i =>
+      simp only [Ty.wf] at hwf
+      simp only [Ty.hasTy] at hty
+      have ⟨h1, h2, h3⟩ := readVarUint_app (zigZag i) (zigZag_lt_of_range w i hwf hty) rest
+      simp only [Ty.app, Ty.read, List.nil_append, appendVarInt, h1, h2, h3, ↓reduceIte,
+        zagZig_zigZag, wrapS_id w i hwf hty]
+    | _ => simp [Ty.hasTy] at hty
+  | uint w =>
+    cases v with
+    | uint n =>
+      simp only [Ty.wf] at hwf
+      simp only [Ty.hasTy] at hty
+      have hn : n < 2 ^ 64 := by
+        rcases hwf with rfl | rfl | rfl | rfl <;> simp only [Nat.reducePow] at hty ⊢ <;> omega
+      have ⟨h1, h2, h3⟩ := readVarUint_app n hn rest
+      simp only [Ty.app, Ty.read, List.nil_append, h1, h2, h3, ↓reduceIte, wrapU_natCast w n hwf hty]
+    | _ => simp [Ty.hasTy] at hty
+  | flat w =>
+    cases v with
+    | int i =>
+      simp only [Ty.wf] at hwf
+      simp only [Ty.hasTy] at hty
+      have ⟨h1, h2, h3⟩ := readVarUint_app (wrapU w i) (wrapU_lt w i hwf) rest
+      simp only [Ty.app, Ty.read, List.nil_append, h1, h2, h3, ↓reduceIte, wrapS_wrapU w i hwf hty]
+    | _ => simp [Ty.hasTy] at hty
+  | f32 =>
+    cases v with
+    | f32 b =>
+      simp only [Ty.hasTy] at hty
+      have hl : ¬ ((leBytes 4 b ++ rest).length < 4) := by
+        simp only [List.length_append, leBytes_length]; omega
+      simp only [Ty.app, Ty.read, List.nil_append, hl, ↓reduceIte, take_leBytes, leVal_leBytes,
+        leBytes_length]
+      rw [Nat.mod_eq_of_lt (by simpa using hty)]
+    | _ => simp [Ty.hasTy] at hty
+  | f64 =>
+    cases v with
+    | f64 b =>
+      simp only [Ty.hasTy] at hty
+      have hl : ¬ ((leBytes 8 b ++ rest).length < 8) := by
+        simp only [List.length_append, leBytes_length]; omega
+      simp only [Ty.app, Ty.read, List.nil_append, hl, ↓reduceIte, take_leBytes, leVal_leBytes,
+        leBytes_length]
+      rw [Nat.mod_eq_of_lt (by simpa using hty)]
+    | _ => simp [Ty.hasTy] at hty
+  | _ => simp [Ty.isScalar] at hs
+
+
+/-! ### framing agrees with `Skip`: a generic walker steps over a field exactly -/
+
+theorem entriesBytes_map {α : Type} (g : α → Bytes) : ∀ (l : List α),
+    entriesBytes (l.map g) = l.flatMap fun a => appendVarUint (g a).length ++ g a
+  | [] => by simp [entriesBytes]
+  | a :: l => by
+    have ih := entriesBytes_map g l
+    simp only [entriesBytes] at ih
+    simp [entriesBytes, ih]
+
+theorem entriesBytes_count_le : ∀ (es : List Bytes), es.length ≤ (entriesBytes es).length
+  | [] => by simp
+  | b :: es => by
+    have ih := entriesBytes_count_le es
+    have := append_len_pos b.length
+    simp only [entriesBytes] at ih
+    simp only [entriesBytes, List.flatMap_cons, List.length_append, List.length_cons]
+    omega
+
+theorem entriesBytes_elem_le : ∀ (es : List Bytes), ∀ b ∈ es, b.length ≤ (entriesBytes es).length
+  | [], _, h => by simp at h
+  | c :: es, b, h => by
+    have ih := entriesBytes_elem_le es b
+    simp only [entriesBytes] at ih
+    simp only [entriesBytes, List.flatMap_cons, List.length_append]
+    rcases List.mem_cons.mp h with rfl | h
+    · omega
+    · have := ih h; omega
+
+/-- `Skip` over `count ++ entries` when the whole thing is shorter than 2^64. -/
+theorem skip_slice_of_total (es : List Bytes) (rest : Bytes)
+    (h : (appendVarUint es.length ++ entriesBytes es).length < 2 ^ 64) :
+    skip (appendVarUint es.length ++ entriesBytes es ++ rest) .slice
+      = .ok (appendVarUint es.length ++ entriesBytes es).length := by
+  simp only [List.length_append] at h
+  have h1 := entriesBytes_count_le es
+  rw [skip_slice_exact es rest (by omega) (fun b hb => by have := entriesBytes_elem_le es b hb; omega)]
+  simp
+
+def SkipLaw (t : Ty) : Prop :=
+  ∀ (v : Val) (rest : Bytes), t.wf → t.hasTy v → v.present = true → t.wt ≠ .len →
+    (t.app v []).length < 2 ^ 64 →
+    skip (t.app v [] ++ rest) t.wt = .ok (t.app v []).length
+
+theorem skipLaw_ty : (t : Ty) → SkipLaw t
+  | .bool => by
+      intro v rest _ hty _ _ _
+      cases v with
+      | bool b =>
+        simp only [Ty.app, Ty.wt, List.nil_append]
+        exact skip_varint_exact _ (by cases b <;> simp) rest
+      | _ => simp [Ty.hasTy] at hty
+  | .int w => by
+      intro v rest hwf hty _ _ _
+      cases v with
+      | int i =>
+        simp only [Ty.wf] at hwf
+        simp only [Ty.hasTy] at hty
+        simp only [Ty.app, Ty.wt, List.nil_append, appendVarInt]
+        exact skip_varint_exact _ (zigZag_lt_of_range w i hwf hty) rest
+      | _ => simp [Ty.hasTy] at hty
+  | .uint w => by
+      intro v rest hwf hty _ _ _
+      cases v with
+      | uint n =>
+        simp only [Ty.wf] at hwf
+        simp only [Ty.hasTy] at hty
+        have hn : n < 2 ^ 64 := by
+          rcases hwf with rfl | rfl | rfl | rfl <;> simp only [Nat.reducePow] at hty ⊢ <;> omega
+        simp only [Ty.app, Ty.wt, List.nil_append]
+        exact skip_varint_exact _ hn rest
+      | _ => simp [Ty.hasTy] at hty
+  | .flat w => by
+      intro v rest hwf hty _ _ _
+      cases v with
+      | int i =>
+        simp only [Ty.wf] at hwf
+        simp only [Ty.app, Ty.wt, List.nil_append]
+        exact skip_varint_exact _ (wrapU_lt w i hwf) rest
+      | _ => simp [Ty.hasTy] at hty
+  | .f32 => by
+      intro v rest _ hty _ _ _
+      cases v with
+      | f32 b =>
+        simp only [Ty.app, Ty.wt, List.nil_append, leBytes_length]
+        exact skip_w32_exact _ rest (leBytes_length 4 b)
+      | _ => simp [Ty.hasTy] at hty
+  | .f64 => by
+      intro v rest _ hty _ _ _
+      cases v with
+      | f64 b =>
+        simp only [Ty.app, Ty.wt, List.nil_append, leBytes_length]
+        exact skip_w64_exact _ rest (leBytes_length 8 b)
+      | _ => simp [Ty.hasTy] at hty
+  | .ptr t => by
+      intro v rest hwf hty hp hl hsz
+      cases v with
+      | ptr o =>
+        cases o with
+        | none => simp [Val.present] at hp
+        | some x =>
+          simp only [Val.present] at hp
+          simp only [Ty.wf] at hwf
+          simp only [Ty.hasTy] at hty
+          simp only [Ty.app, Ty.wt] at hsz hl ⊢
+          exact skipLaw_ty t x rest hwf.1 hty hp hl hsz
+      | _ => simp [Ty.hasTy] at hty
+  | .lslice t => by
+      intro v rest hwf hty _ _ hsz
+      cases v with
+      | slice vs =>
+        rw [lslice_entries t vs [] hwf hty] at hsz ⊢
+        rw [← entriesBytes_map (fun v => t.app v []) vs] at hsz ⊢
+        have hlen : vs.length = (vs.map fun v => t.app v []).length := by simp
+        rw [hlen] at hsz ⊢
+        simp only [List.nil_append, Ty.wt] at hsz ⊢
+        exact skip_slice_of_total _ rest hsz
+      | _ => simp [Ty.hasTy] at hty
+  | .map k v false => by
+      intro x rest hwf hty _ _ hsz
+      cases x with
+      | map o =>
+        cases o with
+        | none =>
+          simp only [Ty.app, Ty.wt, List.nil_append] at hsz ⊢
+          have := skip_slice_of_total [] rest (by simpa [entriesBytes] using hsz)
+          simpa [entriesBytes] using this
+        | some es =>
+          rw [map_entries k v es [] hwf hty] at hsz ⊢
+          rw [← entriesBytes_map (entryBody k v) es] at hsz ⊢
+          have hlen : es.length = (es.map (entryBody k v)).length := by simp
+          rw [hlen] at hsz ⊢
+          simp only [List.nil_append, Ty.wt] at hsz ⊢
+          exact skip_slice_of_total _ rest hsz
+      | _ => simp [Ty.hasTy] at hty
+  | .str _ | .bytes | .time _ | .vslice _ | .fslice _ | .pslice _ | .struct _ _ | .map _ _ true => by
+      intro v rest _ _ _ hl _
+      simp [Ty.wt] at hl
+
+/-- a present value of a non-repeated codec, appended under a non-empty tag, is
+`tag ++ payload` where `Skip` with the codec's wire type steps over exactly
+`payload`, whatever follows. (`2^64`: the bound on a Go slice length.) -/
+theorem field_skip_exact (t : Ty) (v : Val) (tag rest : Bytes) (hwf : t.wf) (hty : t.hasTy v)
+    (hp : v.present = true) (hr : t.deref.isProtoRep = false) (ht : tag ≠ [])
+    (hsz : (t.app v []).length < 2 ^ 64) :
+    ∃ payload, t.app v tag = tag ++ payload ∧ skip (payload ++ rest) t.wt = .ok payload.length := by
+  by_cases hl : t.wt = .len
+  · refine ⟨appendVarUint (t.app v []).length ++ t.app v [], ?_, ?_⟩
+    · rw [app_frame_len t v tag hwf hty hp hl hr ht, List.append_assoc]
+    · rw [hl, skip_len_exact _ rest hsz]; simp
+  · exact ⟨t.app v [], app_frame_other t v tag hwf hty hp hl,
+      skipLaw_ty t v rest hwf hty hp hl hsz⟩
+
